@@ -10,6 +10,7 @@ RULE = ("every field kind (key, value, continuation line, section, comment befor
         "distinct by (field, length)")
 
 BUFSIZ = 8192
+vlib.IMPL_STACK_KB = 192       # the implementation runs with a 192 KiB native stack: copies of arguments on the stack (alloca, strdupa, VLAs) show
 
 def lengths(tier):
     ls = [1, BUFSIZ - 2, BUFSIZ - 1, BUFSIZ, BUFSIZ + 1, BUFSIZ + 2, 2 * BUFSIZ, 65536]
@@ -48,6 +49,14 @@ def gen(rng, tier):
         # setters with long arguments
         cmds = ["newini 0", "set 0 string %s %s %s 0" % (enc(b"G" * n), enc(b"K" * n), enc(big)), "getall 0", "reread 1 0", "getall 1"]
         s = Scenario(cmds, tags=("setter",)); s.field, s.n = "setter", n
+        out.append(s)
+    # names handed to getters and setters as ARGUMENTS, longer than the native stack the implementation runs with
+    for n in ((262144,) if tier == "quick" else (262144, 1 << 20)):
+        g, k = b"G" * n, b"K" * n
+        cmds = ["newini 0", "set 0 string %s %s %s 0" % (enc(g), enc(b"k"), enc(b"v1")), "set 0 int %s %s - 5" % (enc(b"[" + g + b"]"), enc(k)),
+                "get 0 string %s %s -" % (enc(b"[" + g + b"]"), enc(b"k")), "get 0 int %s %s -" % (enc(g), enc(k)), "get 0 bool %s %s b:1" % (enc(g), enc(b"absent")),
+                "ext 0 %s %s" % (enc(g), enc(b"k")), "keys 0 " + enc(g)]
+        s = Scenario(cmds, tags=("long-arguments",)); s.field, s.n = "long-arguments", n
         out.append(s)
     # file and directory names up to NAME_MAX, option strings
     for n in (254, 255):
